@@ -121,6 +121,11 @@ void dv_rshd(dig_t *c, const dig_t *a, size_t size, uint_t digits) {
 	dig_t *bot;
 	size_t i;
 
+	if (digits > size) {
+		/* Everything is shifted out. */
+		digits = size;
+	}
+
 	top = a + digits;
 	bot = c;
 
@@ -136,6 +141,11 @@ void dv_lshd(dig_t *c, const dig_t *a, size_t size, uint_t digits) {
 	dig_t *top;
 	const dig_t *bot;
 	size_t i;
+
+	if (digits > size) {
+		/* Everything is shifted out. */
+		digits = size;
+	}
 
 	top = c + size - 1;
 	bot = a + size - 1 - digits;
